@@ -174,7 +174,8 @@ theorem getLast?_cons_some {α : Type} (a : α) (r : List α) : ∃ x, (a :: r).
   | some m => exact ⟨m, rfl⟩
 
 theorem seg_fork {idx : List Node} {h f : Hash} {l : List Node} (hs : Seg idx h l f) :
-    (match l.getLast? with | some m => m.blk.parent | none => h) = f := by
+    forkOf l h = f := by
+  unfold forkOf
   induction hs with
   | nil => rfl
   | @cons h n r f hl hs ih =>
